@@ -111,6 +111,77 @@ theorem valsetSignatures_members (members confirmers : List String) :
     valsetSignatures true members confirmers = confirmers.filter fun c => members.contains c := by
   unfold valsetSignatures; simp
 
+/-! ### 2b. Progress: the transaction that is next gets submitted and, if confirmed, executed -/
+
+/-- **Progress of batches in sequence order.**  If the batch `b` carries the multisig's next nonce as
+    its sequence, has a confirmation, every batch the hub still lists has a sequence at or above it
+    (the earlier ones were executed and removed), sequences are distinct and the connector has not
+    counted more executed batches than `b`'s nonce, then `b` is the batch a connector submits. -/
+theorem pickBatch_next {last : Nat} {bs : List HubTx} {b : HubTx}
+    (hb : b ∈ bs) (hs : b.nsigs > 0) (hlast : last ≤ b.nonce)
+    (hmin : ∀ x ∈ bs, b.seq ≤ x.seq) (hdist : ∀ x ∈ bs, x.seq = b.seq → x = b) :
+    pickBatch last bs = some b := by
+  unfold pickBatch
+  have hsorted := isort_sorted_desc_seq bs
+  have hf : ((isort (fun a b => decide (a.seq > b.seq)) bs).filter (fun b => decide (b.nsigs > 0))).Pairwise (fun a b => a.seq ≥ b.seq) :=
+    List.Pairwise.filter _ hsorted
+  have hbm : b ∈ (isort (fun a b => decide (a.seq > b.seq)) bs).filter (fun b => decide (b.nsigs > 0)) := by
+    rw [List.mem_filter]
+    exact ⟨(Enc.isort_perm _ bs).mem_iff.mpr hb, by simpa using hs⟩
+  cases hl : ((isort (fun a b => decide (a.seq > b.seq)) bs).filter (fun b => decide (b.nsigs > 0))).getLast? with
+  | none =>
+    rw [List.getLast?_eq_none_iff] at hl
+    rw [hl] at hbm; simp at hbm
+  | some y =>
+    have hym : y ∈ (isort (fun a b => decide (a.seq > b.seq)) bs).filter (fun b => decide (b.nsigs > 0)) := List.mem_of_getLast? hl
+    have hyb : y ∈ bs := (Enc.isort_perm _ bs).mem_iff.mp (List.mem_filter.mp hym).1
+    have h1 : y.seq ≤ b.seq := getLast_le_of_pairwise_ge hf hl hbm
+    have h2 : b.seq ≤ y.seq := hmin y hyb
+    have hyeq : y = b := hdist y hyb (by omega)
+    subst hyeq
+    simp only []
+    have : ¬ y.nonce < last := by omega
+    simp [this]
+
+/-- **Progress of signer sets.**  If `v` is the first signed set of the hub's answer that is newer than
+    the last set the connector saw executed, it is the one the connector submits. -/
+theorem pickValset_next {last : Nat} {pre post : List HubTx} {v : HubTx}
+    (hs : v.nsigs > 0) (hn : last < v.nonce) (hpre : ∀ x ∈ pre, x.nsigs > 0 → x.nonce ≤ last) :
+    pickValset last (pre ++ v :: post) = some v := by
+  have key : ∀ (pre : List HubTx) (cur : Option HubTx), (∀ x ∈ pre, x.nsigs > 0 → x.nonce ≤ last) →
+      pickValsetLoop last cur (pre ++ v :: post) = some v := by
+    intro pre
+    induction pre with
+    | nil =>
+      intro cur _
+      simp only [List.nil_append, pickValsetLoop, hs, hn, if_true]
+    | cons x xs ih =>
+      intro cur hp
+      simp only [List.cons_append, pickValsetLoop]
+      by_cases hx : x.nsigs > 0
+      · have : ¬ x.nonce > last := by have := hp x (by simp) hx; omega
+        simp only [hx, this, if_true, if_false]
+        exact ih _ (fun y hy => hp y (by simp [hy]))
+      · simp only [hx, if_false]
+        exact ih _ (fun y hy => hp y (by simp [hy]))
+  unfold pickValset
+  rw [key pre none hpre]
+  have : ¬ v.nonce ≤ last := by omega
+  simp [this]
+
+/-- **From confirmations to execution, one step.**  The transaction whose sequence is the multisig's next
+    nonce, picked as above and carrying the signatures of members whose installed weights reach 667, is
+    accepted by the multisig. -/
+theorem next_confirmed_batch_is_executed {last next : Nat} {bs : List HubTx} {b : HubTx}
+    {weights : List Nat} {signed : List Bool}
+    (hb : b ∈ bs) (hs : b.nsigs > 0) (hlast : last ≤ b.nonce) (hseq : b.seq = next)
+    (hmin : ∀ x ∈ bs, b.seq ≤ x.seq) (hdist : ∀ x ∈ bs, x.seq = b.seq → x = b)
+    (hw : sumNats ((weights.zip signed).filterMap fun (w, s) => if s then some w else none) ≥ 667) :
+    ∃ t, pickBatch last bs = some t ∧ minterAccepts next t.seq weights signed = true := by
+  refine ⟨b, pickBatch_next hb hs hlast hmin hdist, ?_⟩
+  unfold minterAccepts minterThreshold
+  simp [hseq, hw]
+
 /-! ### 3. Bridge lemmas: the source of main.go the model was written from -/
 
 theorem fact_conn_threshold : Generated.conn_threshold = "667" := rfl
@@ -129,6 +200,7 @@ theorem fact_conn_valsets_calls : Generated.conn_valsets_calls =
 
 example : pickBatch 2 [⟨6, 3, 3⟩, ⟨8, 4, 3⟩, ⟨10, 6, 1⟩, ⟨13, 7, 0⟩, ⟨5, 2, 3⟩, ⟨9, 5, 3⟩] = some ⟨5, 2, 3⟩ := by decide
 example : pickBatch 3 [⟨6, 3, 3⟩, ⟨5, 2, 3⟩] = none := by decide
+example : pickBatch 2 [⟨6, 3, 3⟩, ⟨5, 2, 1⟩, ⟨9, 5, 0⟩] = some ⟨5, 2, 1⟩ := by decide
 example : pickValset 2 [⟨1, 1, 3⟩, ⟨2, 2, 3⟩, ⟨4, 3, 1⟩, ⟨7, 4, 2⟩] = some ⟨4, 3, 1⟩ := by decide
 example : pickValset 2 [⟨1, 1, 3⟩, ⟨2, 2, 3⟩, ⟨4, 3, 0⟩] = none := by decide
 example : minterAccepts 4 4 [564, 408, 27] [true, true, false] = true ∧ minterAccepts 4 4 [564, 408, 27] [true, false, true] = false := by decide
